@@ -70,10 +70,14 @@ CATALOGUE = ["C(w)", "C(k()w)", "C(K(C(w)))", "C(r()w)", "C(r(C(w)))", "C(i()w)"
              "C(w)C(w)", "C(R(C(K()))w)"]
 
 
-def interleavings(a, b, limit=None):
-    """all schedules that run both threads to completion when nobody ever blocks (blocked
-    attempts are inserted by the drain order anyway); plus schedules with repeated attempts"""
+def interleavings(a, b, limit=None, rng=None):
+    """schedules over {0,1} with exactly as many entries per thread as it has primitive steps
+    (an entry of a blocked thread is a blocked attempt; the drain completes the run).
+    All of them when their number is <= limit (or limit is None), otherwise `limit` of them:
+    the first limit/2 in lexicographic order and limit/2 drawn with rng."""
+    import math
     na, nb = prog_ops(a), prog_ops(b)
+    total = math.comb(na + nb, na)
     count = 0
     for pos in itertools.combinations(range(na + nb), na):
         s = ["1"] * (na + nb)
@@ -81,5 +85,10 @@ def interleavings(a, b, limit=None):
             s[p] = "0"
         yield ",".join(s)
         count += 1
-        if limit and count >= limit:
-            return
+        if limit is not None and total > limit and count >= limit // 2:
+            break
+    if limit is not None and total > limit:
+        for _ in range(limit - count):
+            s = ["0"] * na + ["1"] * nb
+            rng.shuffle(s)
+            yield ",".join(s)
